@@ -181,6 +181,98 @@ def notfound_text_obligations(ctx, rep, rule):
             key=f"{rule}|str", nontrivial=n > 0)
 
 
+
+def unbound_after_try_obligations(ctx, rep, rule):
+    """A name first bound inside a try body and read after the try statement is bound on every way out of the handlers: a handler
+    that logs and falls through without binding it turns the I/O error it caught into UnboundLocalError - which the per-entry guards
+    of a listing (FileNotFound, OSError) do not catch."""
+    prog = ctx.prog
+    n_try = 0
+    found = []
+
+    def ends_normally(body) -> bool:
+        if not body:
+            return True
+        last = body[-1]
+        if isinstance(last, (ast.Raise, ast.Return, ast.Continue, ast.Break)):
+            return False
+        if isinstance(last, ast.If) and last.orelse:
+            return ends_normally(last.body) or ends_normally(last.orelse)
+        return True
+
+    def stores(nodes):
+        out = set()
+        for b in nodes:
+            for x in ast.walk(b):
+                if isinstance(x, ast.Name) and isinstance(x.ctx, ast.Store):
+                    out.add(x.id)
+                elif isinstance(x, (ast.FunctionDef, ast.ClassDef)):
+                    out.add(x.name)
+                elif isinstance(x, ast.ExceptHandler) and x.name:
+                    out.add(x.name)
+        return out
+
+    def scan_block(f, block, bound):
+        """bound: names certainly bound before this block (params + earlier straight-line stores)"""
+        nonlocal n_try
+        bound = set(bound)
+        for i, st in enumerate(block):
+            if isinstance(st, ast.Try):
+                n_try += 1
+                in_body = stores(st.body) - bound
+                after = block[i + 1:]
+                read_after = {x.id for a in after for x in ast.walk(a) if isinstance(x, ast.Name) and isinstance(x.ctx, ast.Load)}
+                read_after |= {x.id for a in st.finalbody for x in ast.walk(a) if isinstance(x, ast.Name) and isinstance(x.ctx, ast.Load)} - set()
+                for h in st.handlers:
+                    if not ends_normally(h.body):
+                        continue
+                    missing = sorted((in_body & read_after) - stores(h.body) - stores(st.orelse and [] or []))
+                    for name in missing:
+                        # a later unconditional store before the first read makes it fine
+                        first_use = None
+                        for a in after:
+                            loads = [x for x in ast.walk(a) if isinstance(x, ast.Name) and x.id == name]
+                            if loads:
+                                first_use = a
+                                break
+                        if first_use is not None and isinstance(first_use, ast.Assign) and any(isinstance(t, ast.Name) and t.id == name for t in first_use.targets) \
+                                and not any(isinstance(x, ast.Name) and x.id == name and isinstance(x.ctx, ast.Load) for x in ast.walk(first_use.value)):
+                            continue
+                        found.append((f, st, h, name))
+                for sub in (st.body, st.orelse, st.finalbody):
+                    scan_block(f, sub, bound)
+                for h in st.handlers:
+                    scan_block(f, h.body, bound)
+                bound |= stores(st.body) & stores([ast.Module(body=h.body, type_ignores=[]) for h in st.handlers if ends_normally(h.body)] or st.body) \
+                    if any(ends_normally(h.body) for h in st.handlers) else stores(st.body)
+                continue
+            for fld in ("body", "orelse", "finalbody"):
+                sub = getattr(st, fld, None)
+                if isinstance(sub, list) and sub and isinstance(sub[0], ast.stmt) and not isinstance(st, (ast.FunctionDef, ast.AsyncFunctionDef, ast.ClassDef)):
+                    scan_block(f, sub, bound)
+            if isinstance(st, (ast.Assign, ast.AnnAssign, ast.AugAssign, ast.Import, ast.ImportFrom, ast.With, ast.For)):
+                if isinstance(st, (ast.With, ast.For)):
+                    continue
+                bound |= stores([st])
+
+    for f in prog.all_functions():
+        m = f.module.name
+        if not (m.startswith(("pygopherd.handlers", "pygopherd.protocols")) or m in ("pygopherd.gopherentry", "pygopherd.server", "pygopherd.GopherExceptions")):
+            continue
+        if ".tests" in m:
+            continue
+        args = f.node.args
+        params = {a.arg for a in args.posonlyargs + args.args + args.kwonlyargs} | ({args.vararg.arg} if args.vararg else set()) | ({args.kwarg.arg} if args.kwarg else set())
+        scan_block(f, f.node.body, params)
+    for f, st, h, name in found:
+        rep.add(rule, f"{f.qualname}: `{name}` after the try at line {st.lineno}", False, ctx.where(f, h),
+                f"`{name}` is bound only inside the try body; `except {norm(h.type) if h.type is not None else ''}` (line {h.lineno}) completes without binding it and "
+                f"the code after the try reads it: the error that was caught comes back as UnboundLocalError, which the per-entry guards of a listing do not catch",
+                key=f"{rule}|{f.qualname}|{name}")
+    if not found:
+        rep.ok(rule, f"every name read after a try statement is bound on all ways out of it [{n_try} try statements]", "pygopherd", "", key=f"{rule}|none")
+
+
 def check(ctx, rep):
     prog = ctx.prog
     eff = Effects(prog, ctx.resolver)
@@ -212,6 +304,9 @@ def check(ctx, rep):
                 "" if not failing_ else f"for an exception text such as `'100%.txt' does not exist` {failing_[0][1:-1]}: the FileNotFound for an entry with such a name "
                 "cannot even be constructed, and the error that escapes instead is not one the listing loop catches",
                 key="R12h|log-total", nontrivial=texts_ is not None)
+    rep.rule("R12j", "a name bound inside a try body and read after it is bound on every way out of the try's handlers (otherwise the caught I/O "
+             "error turns into UnboundLocalError, which no per-entry guard catches)", floor=1)
+    unbound_after_try_obligations(ctx, rep, "R12j")
     rep.rule("R12i", "= R03l: the text of a FileNotFound can always be built and quotes the selector as it is (evaluated on selectors with per cent "
              "signs and braces): the exception formats itself in its own constructor", floor=1)
     notfound_text_obligations(ctx, rep, "R12i")
